@@ -151,6 +151,16 @@ def parse : Nat → List String → PR E
       match parse f r with
       | some (c, r1) => two r1 fun t e => .cond c t (some e)
       | none => none
+    | "ifc" :: nb :: he :: r =>                                   -- if / else if … [else]: nested ConditionalExpressions, first branch outermost
+      match many (2 * nb.toNat! + (if he == "1" then 1 else 0)) r with
+      | some (ks, r1) =>
+        let rec chain : List E → Option E
+          | [c, b] => some (.cond c b none)
+          | [c, b, e] => if he == "1" then some (.cond c b (some e)) else none
+          | c :: b :: rest => (chain rest).map fun tail => .cond c b (some tail)
+          | _ => none
+        (chain ks).map fun e => (e, r1)
+      | none => none
     | "tern" :: r =>
       match parse f r with
       | some (c, r1) => two r1 fun t e => .cond c t (some e)
